@@ -100,6 +100,19 @@ func (fsbs *filesystemBackstore) pickLatestAssertion(assertType *AssertionType, 
 	return a, nil
 }
 
+// escapePathComp escapes a primary key value for use as a path
+// component (safety against '/' etc). QueryEscape leaves dots alone
+// but "." and ".." must not be used as path components as they are.
+func escapePathComp(comp string) string {
+	switch comp {
+	case ".":
+		return "%2E"
+	case "..":
+		return "%2E%2E"
+	}
+	return url.QueryEscape(comp)
+}
+
 // diskPrimaryPathComps computes the components of the path for an assertion.
 // The path will look like this: (all <comp> are query escaped)
 // <primaryPath0>/<primaryPath1>...[/0:<optPrimaryPath0>[/1:<optPrimaryPath1>]...]/<active>
@@ -115,7 +128,7 @@ func diskPrimaryPathComps(assertType *AssertionType, primaryPath []string, activ
 	noptional := -1
 	for i, comp := range primaryPath {
 		defl := assertType.OptionalPrimaryKeyDefaults[assertType.PrimaryKey[i]]
-		qvalue := url.QueryEscape(comp)
+		qvalue := escapePathComp(comp)
 		if defl != "" {
 			noptional++
 			if comp == defl {
@@ -242,7 +255,7 @@ func (fsbs *filesystemBackstore) searchOptional(assertType *AssertionType, kopt,
 	case assertType.OptionalPrimaryKeyDefaults[k]:
 		return fsbs.searchOptional(assertType, kopt+1, pattPos, firstOpt, diskPattern, headers, foundCb, maxFormat)
 	default:
-		diskPattern[pattPos] = fmt.Sprintf("%d:%s", kopt-firstOpt, url.QueryEscape(keyVal))
+		diskPattern[pattPos] = fmt.Sprintf("%d:%s", kopt-firstOpt, escapePathComp(keyVal))
 		return fsbs.searchOptional(assertType, kopt+1, pattPos+1, firstOpt, diskPattern, headers, foundCb, maxFormat)
 	}
 }
@@ -259,7 +272,7 @@ func (fsbs *filesystemBackstore) Search(assertType *AssertionType, headers map[s
 		if keyVal == "" {
 			diskPattern[i] = "*"
 		} else {
-			diskPattern[i] = url.QueryEscape(keyVal)
+			diskPattern[i] = escapePathComp(keyVal)
 		}
 	}
 	pattPos := n - nopt
@@ -284,7 +297,7 @@ func (fsbs *filesystemBackstore) SequenceMemberAfter(assertType *AssertionType, 
 	n := len(assertType.PrimaryKey)
 	diskPattern := make([]string, n+1)
 	for i, k := range sequenceKey {
-		diskPattern[i] = url.QueryEscape(k)
+		diskPattern[i] = escapePathComp(k)
 	}
 	seqWildcard := "#>" // ascending sequence wildcard
 	if after == -1 {
